@@ -639,7 +639,7 @@ def impl(stream, line):
         fh = open_kind(w[1], C.unhx(w[4]))
         try:
             rs = None if w[2] == "none" else int(w[2])
-            l = list(xordecode.iter_nonce_offsets(fh, real_size=rs, maxrange=int(w[3])))
+            l = list(xordecode.iter_nonce_offsets(fh, **C.drop_defaults(line, {"real_size": None, "maxrange": 1024}, real_size=rs, maxrange=int(w[3]))))
             return f"ok {C.ints(l)} {fh.tell()}"
         finally:
             fh.close()
@@ -659,7 +659,7 @@ def impl(stream, line):
         try:
             if stream == "detectfull":
                 io.DEFAULT_BUFFER_SIZE = int(w[4])
-            xf = XorEncodedFile.from_file(fh, maxrange=int(w[2]))
+            xf = XorEncodedFile.from_file(fh, **C.drop_defaults(line, {"maxrange": 1024}, maxrange=int(w[2])))
             head = f"ok {xf.nonce_offset} {fh.tell()} {xf.tell()}"
             return head + " " + C.hx(xf.read(12))
         finally:
